@@ -152,7 +152,7 @@ pub fn run(ctx: &Ctx) -> Report {
     let mut cases: Vec<Case> = Vec::new();
     let mut rng = Rng::derive(ctx.seed, 0xC02);
     for spec in panels_for(ctx) {
-        let syms = syms(spec);
+        let syms = syms_shapes(spec);
         // every full-frame entry point that may be called on its own (the chromatic plane update of the
         // three-colour trait is a public call of its own, although the alphabet only uses it after the
         // achromatic one)
@@ -230,7 +230,7 @@ pub fn run(ctx: &Ctx) -> Report {
     }
     let mut out = par_run(&cases, ctx.threads, |_, c, rep| {
         let spec = c.spec;
-        let syms = syms(spec);
+        let syms = syms_shapes(spec);
         let fr = &fresh[&(spec as *const Spec as usize, c.probe)];
         rep.eval(spec.name);
         let ops = flatten(&syms, &c.h);
